@@ -10,10 +10,10 @@ open GocoinV GocoinV.Script
 theorem shuffle_agree (T : TotalOracles) (c : Ctx) (leaf : Bytes) (annex : Option Bytes) (st : St) (s : ScriptSpec.State)
     (i : ScriptSpec.Instr) (idx pos : Nat) (hR : Rel c leaf annex st s) (hs : ScriptSpec.isShuffle i.op = true) :
     Agree c leaf annex (execOp c st i.op idx pos true) (ScriptSpec.execOpcode (envOf T c leaf annex) s i true pos) := by
-  obtain ⟨h1, h2, h3, h5, h6, h7, h8, h9, h10⟩ := hR
+  obtain ⟨h1, h2, h3, h5, h6, h7, h8, h9, h10, h11⟩ := hR
   obtain ⟨sstack, salt, scond, sop, scode, scsp, sw⟩ := s
   obtain ⟨stack, alt, exe, pbegin, opcnt, ed⟩ := st
-  simp only at h1 h2 h3 h5 h6 h7 h8 h9 h10
+  simp only at h1 h2 h3 h5 h6 h7 h8 h9 h10 h11
   subst h1 h2 h3 h5
   obtain ⟨iop, idata, iafter⟩ := i
   simp only [ScriptSpec.isShuffle, Bool.or_eq_true, beq_iff_eq] at hs
@@ -22,35 +22,35 @@ theorem shuffle_agree (T : TotalOracles) (c : Ctx) (leaf : Bytes) (annex : Optio
     rcases stack with _ | ⟨a, _ | ⟨b, _ | ⟨d, _ | ⟨e, _ | ⟨f, _ | ⟨g, r⟩⟩⟩⟩⟩⟩ <;>
     simp [agree_ok, agree_fail, throw, throwThe, MonadExceptOf.throw, pure, Except.pure] <;>
     (try (split <;> simp [agree_ok])) <;>
-    exact ⟨rfl, rfl, rfl, rfl, h6, h7, h8, h9, h10⟩
+    exact ⟨rfl, rfl, rfl, rfl, h6, h7, h8, h9, h10, h11⟩
 
 def isConstOp (op : Nat) : Bool := op == 0x4f || (0x51 ≤ op && op ≤ 0x60) || op == 0x61
 
 theorem const_agree (T : TotalOracles) (c : Ctx) (leaf : Bytes) (annex : Option Bytes) (st : St) (s : ScriptSpec.State)
     (i : ScriptSpec.Instr) (idx pos : Nat) (hR : Rel c leaf annex st s) (hs : isConstOp i.op = true) :
     Agree c leaf annex (execOp c st i.op idx pos true) (ScriptSpec.execOpcode (envOf T c leaf annex) s i true pos) := by
-  obtain ⟨h1, h2, h3, h5, h6, h7, h8, h9, h10⟩ := hR
+  obtain ⟨h1, h2, h3, h5, h6, h7, h8, h9, h10, h11⟩ := hR
   obtain ⟨sstack, salt, scond, sop, scode, scsp, sw⟩ := s
   obtain ⟨stack, alt, exe, pbegin, opcnt, ed⟩ := st
-  simp only at h1 h2 h3 h5 h6 h7 h8 h9 h10
+  simp only at h1 h2 h3 h5 h6 h7 h8 h9 h10 h11
   subst h1 h2 h3 h5
   obtain ⟨iop, idata, iafter⟩ := i
   simp only [isConstOp, Bool.or_eq_true, beq_iff_eq, Bool.and_eq_true, decide_eq_true_eq] at hs
   rcases hs with (h | ⟨ha, hb'⟩) | h
   · subst h
     simp [execOp, ScriptSpec.execOpcode, agree_ok, pure, Except.pure, St.push, ScriptSpec.pushNum, ScriptSpec.push]
-    refine ⟨?_, rfl, rfl, rfl, h6, h7, h8, h9, h10⟩
+    refine ⟨?_, rfl, rfl, rfl, h6, h7, h8, h9, h10, h11⟩
     simp; decide
   · have e1 : (iop == 0x4f) = false := by simp; omega
     have e2 : (decide (iop ≥ 0x51) && decide (iop ≤ 0x60)) = true := by simp; omega
     have e3 : (iop == 0x4f || (decide (0x51 ≤ iop) && decide (iop ≤ 0x60))) = true := by simp; omega
     simp only [execOp, ScriptSpec.execOpcode, e1, e2, e3, Bool.false_eq_true, ↓reduceIte, agree_ok, pure, Except.pure, St.push,
       ScriptSpec.pushNum, ScriptSpec.push, Bool.false_or, Bool.or_true]
-    refine ⟨?_, rfl, rfl, rfl, h6, h7, h8, h9, h10⟩
+    refine ⟨?_, rfl, rfl, rfl, h6, h7, h8, h9, h10, h11⟩
     simp only [intBytes_eq_encode]
   · subst h
     simp [execOp, ScriptSpec.execOpcode, agree_ok, pure, Except.pure]
-    exact ⟨rfl, rfl, rfl, rfl, h6, h7, h8, h9, h10⟩
+    exact ⟨rfl, rfl, rfl, rfl, h6, h7, h8, h9, h10, h11⟩
 
 def isMiscOp (op : Nat) : Bool :=
   op == 0x69 || op == 0x6a || op == 0x6b || op == 0x6c || op == 0x87 || op == 0x88 ||
@@ -59,10 +59,10 @@ def isMiscOp (op : Nat) : Bool :=
 theorem misc_agree (T : TotalOracles) (c : Ctx) (hO : c.O = T.toOracles) (leaf : Bytes) (annex : Option Bytes) (st : St) (s : ScriptSpec.State)
     (i : ScriptSpec.Instr) (idx pos : Nat) (hR : Rel c leaf annex st s) (hs : isMiscOp i.op = true) :
     Agree c leaf annex (execOp c st i.op idx pos true) (ScriptSpec.execOpcode (envOf T c leaf annex) s i true pos) := by
-  obtain ⟨h1, h2, h3, h5, h6, h7, h8, h9, h10⟩ := hR
+  obtain ⟨h1, h2, h3, h5, h6, h7, h8, h9, h10, h11⟩ := hR
   obtain ⟨sstack, salt, scond, sop, scode, scsp, sw⟩ := s
   obtain ⟨stack, alt, exe, pbegin, opcnt, ed⟩ := st
-  simp only at h1 h2 h3 h5 h6 h7 h8 h9 h10
+  simp only at h1 h2 h3 h5 h6 h7 h8 h9 h10 h11
   subst h1 h2 h3 h5
   obtain ⟨iop, idata, iafter⟩ := i
   simp only [isMiscOp, Bool.or_eq_true, beq_iff_eq] at hs
@@ -74,7 +74,7 @@ theorem misc_agree (T : TotalOracles) (c : Ctx) (hO : c.O = T.toOracles) (leaf :
       ScriptSpec.vchTrue, ScriptSpec.vchFalse, TotalOracles.toOracles] <;>
     (try (cases hcb : ScriptSpec.castToBool a <;> simp [hcb, agree_ok, agree_fail])) <;>
     (try (by_cases hab : a = b <;> simp [hab, agree_ok, agree_fail])) <;>
-    (try exact ⟨rfl, rfl, rfl, rfl, h6, h7, h8, h9, h10⟩)
+    (try exact ⟨rfl, rfl, rfl, rfl, h6, h7, h8, h9, h10, h11⟩)
 
 def isNopOp (op : Nat) : Bool :=
   op == 0xb0 || op == 0xb3 || op == 0xb4 || op == 0xb5 || op == 0xb6 || op == 0xb7 || op == 0xb8 || op == 0xb9
@@ -82,10 +82,10 @@ def isNopOp (op : Nat) : Bool :=
 theorem nop_agree (T : TotalOracles) (c : Ctx) (leaf : Bytes) (annex : Option Bytes) (st : St) (s : ScriptSpec.State)
     (i : ScriptSpec.Instr) (idx pos : Nat) (hR : Rel c leaf annex st s) (hs : isNopOp i.op = true) :
     Agree c leaf annex (execOp c st i.op idx pos true) (ScriptSpec.execOpcode (envOf T c leaf annex) s i true pos) := by
-  obtain ⟨h1, h2, h3, h5, h6, h7, h8, h9, h10⟩ := hR
+  obtain ⟨h1, h2, h3, h5, h6, h7, h8, h9, h10, h11⟩ := hR
   obtain ⟨sstack, salt, scond, sop, scode, scsp, sw⟩ := s
   obtain ⟨stack, alt, exe, pbegin, opcnt, ed⟩ := st
-  simp only at h1 h2 h3 h5 h6 h7 h8 h9 h10
+  simp only at h1 h2 h3 h5 h6 h7 h8 h9 h10 h11
   subst h1 h2 h3 h5
   obtain ⟨iop, idata, iafter⟩ := i
   simp only [isNopOp, Bool.or_eq_true, beq_iff_eq] at hs
@@ -93,6 +93,6 @@ theorem nop_agree (T : TotalOracles) (c : Ctx) (leaf : Bytes) (annex : Option By
     simp only [execOp, ScriptSpec.execOpcode, isBinArith, envOf_f, ← flag_nops] <;>
     cases hf : has c.flags VER_BLOCK_OPS <;>
     simp [hf, agree_ok, agree_fail, throw, throwThe, MonadExceptOf.throw, pure, Except.pure] <;>
-    exact ⟨rfl, rfl, rfl, rfl, h6, h7, h8, h9, h10⟩
+    exact ⟨rfl, rfl, rfl, rfl, h6, h7, h8, h9, h10, h11⟩
 
 end GocoinV.Proofs.C01
